@@ -79,13 +79,18 @@ impl VPackIdSet {
 // ---- restore_contents: one (pack, blob) entry of the restore plan becomes one read ----
 pub uninterp spec fn DLEN(bl: BlobLocation) -> u32;   // BlobLocation::data_length (unit of C14)
 pub open spec fn any_matches(fls: Seq<FileLocation>) -> bool { exists|i: int| 0 <= i < fls.len() && (#[trigger] fls[i]).matches }
-// fls.iter().find(|fl| fl.matches).map(|fl| (fl.file_idx, fl.file_start, bl.data_length())): the first location whose
-// destination bytes already are this blob -- it can serve as read source instead of the pack
+impl BlobLocation {
+    // BlobLocation::data_length (unit of C14): the plaintext length of the blob
+    #[verifier::external_body]
+    pub fn data_length(&self) -> (r: u32) ensures r == DLEN(*self), { unimplemented!() }
+}
+// fls.iter().find(|fl| fl.matches).map(|fl| (fl.file_idx, fl.file_start, <len>)): the first location whose destination
+// bytes already are this blob -- it can serve as read source instead of the pack; <len> is the third component as written
 #[verifier::external_body]
-pub fn vfirst_matching(fls: &SmallVec<FileLocation>, bl: &BlobLocation) -> (r: Option<(usize, u64, u32)>)
+pub fn vfirst_matching(fls: &SmallVec<FileLocation>, len: u32) -> (r: Option<(usize, u64, u32)>)
     ensures
         r is Some <==> any_matches(fls.v@),
-        r matches Some(x) ==> x.2 == DLEN(*bl) && exists|i: int| 0 <= i < fls.v@.len() && (#[trigger] fls.v@[i]).matches && fls.v@[i].file_idx == x.0 && fls.v@[i].file_start == x.1,
+        r matches Some(x) ==> x.2 == len && exists|i: int| 0 <= i < fls.v@.len() && (#[trigger] fls.v@[i]).matches && fls.v@[i].file_idx == x.0 && fls.v@[i].file_start == x.1,
 { unimplemented!() }
 pub open spec fn non_matching(fls: Seq<FileLocation>) -> Seq<(usize, u64)>
     decreases fls.len()
